@@ -10,11 +10,12 @@ open CaddyModel.C11
 #print axioms redirect_position
 #print axioms redirect_port_deterministic
 #print axioms redirect_sources_deterministic
-#print axioms deterministic_partial
+#print axioms old_code_order_independent_part
+#print axioms deterministic
 #print axioms server_flags
 #print axioms policies_same
-#print axioms deterministic_full_fails
-#print axioms receiver_depends_on_order
-#print axioms effective_depends_on_route_order
+#print axioms deterministic_old_code_fails
+#print axioms receiver_old_code_depends_on_order
+#print axioms effective_old_code_depends_on_route_order
 #print axioms redirect_port_full_fails
 #print axioms redirect_exists_full_fails
